@@ -45,6 +45,18 @@ theorem encode_entry_points {α : Type} (enc : α → List ℕ) (e : α) (bytes 
     (∀ f ∈ (Gen.ConvForms.bytesForms : List (String × (List ℕ → List ℕ))), f.2 bytes = bytes) :=
   ⟨fun f hf => Formulas.ConvForms.encodeForms_correct f hf enc e, fun f hf => Formulas.ConvForms.bytesForms_correct f hf bytes⟩
 
+/-- every stream serialiser (`CanonicalSerialize for Encoding | Element | AffinePoint`, regenerated on every run): the declared
+size is 32 in compressed mode (a panic otherwise), an `Encoding` writes exactly its bytes, an `Element` / `AffinePoint` exactly
+the encoder's output -/
+theorem serialize_entry_points {α : Type} (enc : α → List ℕ) (e : α) (bytes : List ℕ) (mode : Bool) :
+    (∀ f ∈ Gen.ConvForms.serSizeForms, f.2 true = .ok 32 ∧ f.2 false = .error .panic) ∧
+    (∀ f ∈ Gen.ConvForms.serEncodingForms, f.2 mode bytes = .ok bytes) ∧
+    (∀ f ∈ (Gen.ConvForms.serElementForms : List (String × ((α → List ℕ) → Bool → α → Except Gen.ConvForms.SerErr (List ℕ)))),
+      f.2 enc mode e = .ok (enc e)) :=
+  ⟨fun f hf => ⟨by rw [Formulas.ConvForms.serSizeForms_correct f hf]; rfl, by rw [Formulas.ConvForms.serSizeForms_correct f hf]; rfl⟩,
+   fun f hf => Formulas.ConvForms.serEncodingForms_correct f hf mode bytes,
+   fun f hf => Formulas.ConvForms.serElementForms_correct f hf enc mode e⟩
+
 end C03.Translated
 
 instantiate_builds C03.Translated.encode_eq_spec_arkcode ark
